@@ -514,103 +514,415 @@ func bsiOps(w *World) map[string]string {
 	return out
 }
 
+// ---- numeric operators: the answer of every operator as a set, evaluated over a small signed model
+//
+// The numeric query answers an operator with a bitmap built from BSI comparisons and bitmap algebra. The rule follows
+// every success path of every operator, builds the returned set symbolically (CompareValue / GetExistenceBitmap / Clone /
+// And / AndNot / Or / Xor / New) and evaluates it at every point of a finite model: a document that has the field or not,
+// its stored value x and the operands A (filter.Value) and B (filter.Value2) over {-2,…,2}. Comparisons touch values only
+// through their order and sign, so this model covers every sign / order constellation.
+//
+// Library fact (roaring v1.9.4, BitSliceIndexing.compareValue, read and confirmed against an oracle): on a 64-plane BSI
+// the sign plane is skipped by the bit walk and only the final LE and GE cases are qualified by the signs of both sides;
+// EQ, LT, GT and RANGE compare magnitudes when the stored value and an operand differ in sign. They are exact when all
+// signs agree. The model therefore gives them the value "undetermined" at mixed-sign points (Kleene logic): an answer
+// that depends on such a point is reported.
+
+type tri int8
+
+const (
+	triF tri = iota
+	triT
+	triU
+)
+
+func triOf(b bool) tri {
+	if b {
+		return triT
+	}
+	return triF
+}
+func triAnd(a, b tri) tri {
+	switch {
+	case a == triF || b == triF:
+		return triF
+	case a == triT && b == triT:
+		return triT
+	}
+	return triU
+}
+func triNot(a tri) tri {
+	switch a {
+	case triT:
+		return triF
+	case triF:
+		return triT
+	}
+	return triU
+}
+func triOr(a, b tri) tri { return triNot(triAnd(triNot(a), triNot(b))) }
+
+type numPoint struct {
+	has     bool
+	x, a, b int
+}
+
+type numSet struct {
+	eval func(m numPoint) tri
+	str  string
+	bad  string // why the set is not known
+}
+
+func numUnknown(why string) *numSet {
+	return &numSet{eval: func(numPoint) tri { return triU }, str: "?", bad: why}
+}
+
+// signUnsafeBSIOps: see the library fact above.
+var signUnsafeBSIOps = map[string]bool{"EQ": true, "LT": true, "GT": true, "RANGE": true}
+
 func ruleMetaNumericTable(r *Run, rule string, numF *ssa.Function, isTag func(ssa.Value) bool, domain []string) {
 	w := r.W
 	name := w.Name(numF)
-	reach := constReach(numF, isTag, domain)
 	opNames := bsiOps(w)
 	if len(opNames) != 6 {
 		r.Unres(rule, "bsi:constants", fmt.Sprintf("bsi.Operation constants not found (%d of 6)", len(opNames)))
 		return
 	}
 	c := NewCanon(w)
-	want := map[string]string{"eq": "EQ", "": "EQ", "ne": "EQ", "gt": "GT", "gte": "GE", "lt": "LT", "lte": "LE", "range": "RANGE"}
-	seen := map[string]bool{}
-	for _, call := range callsIn(numF, func(cc *ssa.CallCommon) bool { return strings.HasSuffix(calleeName(cc), "BSI).CompareValue") }) {
-		cc := call.Common()
-		site := w.InstrPos(call) + " " + name
-		// the operation argument: a constant, or chosen per operator by an inner switch (a phi: one row per edge)
-		type rowT struct {
-			opv string
-			s   valSet
+	// the parameters by type: the filter and the field's BSI
+	pf, pb := -1, -1
+	for i, p := range numF.Params {
+		t := tstr(p.Type(), qual)
+		switch {
+		case strings.HasSuffix(t, "Filter"):
+			pf = i
+		case strings.HasSuffix(t, "BSI"):
+			pb = i
 		}
-		var rowsT []rowT
-		if ph, isPhi := cc.Args[2].(*ssa.Phi); isPhi {
-			for i, e := range ph.Edges {
-				ov, _ := constString(e)
-				// operators that choose this edge and go on to reach the call
-				both := valSet{}
-				for op := range reach[ph.Block().Preds[i]] {
-					if reach[call.Block()][op] {
-						both[op] = true
-					}
+	}
+	if pf < 0 || pb < 0 {
+		r.Unres(rule, "bsi:params", "the numeric query does not take a Filter and a BSI")
+		return
+	}
+	opA, opB, recv := fmt.Sprintf("toInt64(P%d.Value)#0", pf), fmt.Sprintf("toInt64(P%d.Value2)#0", pf), fmt.Sprintf("P%d", pb)
+	// operand: which model quantity an SSA value denotes
+	type operand struct {
+		kind string // "A", "B", "const"
+		k    int
+	}
+	operandOf := func(v ssa.Value, pth *Path) (operand, bool) {
+		v = resolveOnPath(pth, v)
+		if k, ok := v.(*ssa.Const); ok && k.Value != nil && k.Value.Kind() == constant.Int {
+			if n, exact := constant.Int64Val(k.Value); exact && n >= -2 && n <= 2 {
+				return operand{"const", int(n)}, true
+			}
+			return operand{}, false
+		}
+		switch c.S(v) {
+		case opA:
+			return operand{"A", 0}, true
+		case opB:
+			return operand{"B", 0}, true
+		}
+		return operand{}, false
+	}
+	valOf := func(o operand, m numPoint) int {
+		switch o.kind {
+		case "A":
+			return m.a
+		case "B":
+			return m.b
+		}
+		return o.k
+	}
+	opStr := func(o operand) string {
+		if o.kind == "const" {
+			return fmt.Sprint(o.k)
+		}
+		return o.kind
+	}
+	prim := func(op string, v1, v2 operand) *numSet {
+		str := fmt.Sprintf("%s(%s)", op, opStr(v1))
+		if op == "RANGE" {
+			str = fmt.Sprintf("RANGE(%s,%s)", opStr(v1), opStr(v2))
+		}
+		return &numSet{str: str, eval: func(m numPoint) tri {
+			if !m.has {
+				return triF
+			}
+			a := valOf(v1, m)
+			mixed := (m.x < 0) != (a < 0)
+			switch op {
+			case "LE":
+				return triOf(m.x <= a)
+			case "GE":
+				return triOf(m.x >= a)
+			case "EQ":
+				if mixed {
+					return triU
 				}
-				if len(both) == 0 {
+				return triOf(m.x == a)
+			case "LT":
+				if mixed {
+					return triU
+				}
+				return triOf(m.x < a)
+			case "GT":
+				if mixed {
+					return triU
+				}
+				return triOf(m.x > a)
+			case "RANGE":
+				b := valOf(v2, m)
+				if mixed || (m.x < 0) != (b < 0) {
+					return triU
+				}
+				return triOf(m.x >= a && m.x <= b)
+			}
+			return triU
+		}}
+	}
+	combine := func(op string, x, y *numSet) *numSet {
+		if x == nil || y == nil {
+			return numUnknown("an operand of " + op + " is not a set this rule follows")
+		}
+		if x.bad != "" {
+			return x
+		}
+		if y.bad != "" {
+			return y
+		}
+		xe, ye := x.eval, y.eval
+		var f func(m numPoint) tri
+		switch op {
+		case "And":
+			f = func(m numPoint) tri { return triAnd(xe(m), ye(m)) }
+		case "AndNot":
+			f = func(m numPoint) tri { return triAnd(xe(m), triNot(ye(m))) }
+		case "Or":
+			f = func(m numPoint) tri { return triOr(xe(m), ye(m)) }
+		case "Xor":
+			f = func(m numPoint) tri { return triOr(triAnd(xe(m), triNot(ye(m))), triAnd(triNot(xe(m)), ye(m))) }
+		}
+		return &numSet{eval: f, str: "(" + x.str + " " + op + " " + y.str + ")"}
+	}
+	expect := map[string]func(m numPoint) bool{
+		"eq":    func(m numPoint) bool { return m.has && m.x == m.a },
+		"":      func(m numPoint) bool { return m.has && m.x == m.a },
+		"ne":    func(m numPoint) bool { return m.has && m.x != m.a },
+		"gt":    func(m numPoint) bool { return m.has && m.x > m.a },
+		"gte":   func(m numPoint) bool { return m.has && m.x >= m.a },
+		"lt":    func(m numPoint) bool { return m.has && m.x < m.a },
+		"lte":   func(m numPoint) bool { return m.has && m.x <= m.a },
+		"range": func(m numPoint) bool { return m.has && m.x >= m.a && m.x <= m.b },
+	}
+	usesB := map[string]bool{"range": true}
+	roaringPkg := strings.TrimSuffix(strings.TrimPrefix(roaringBitmap, "(*"), ".Bitmap).") + "."
+	var missing []string
+	ops := make([]string, 0, len(expect))
+	for op := range expect {
+		ops = append(ops, op)
+	}
+	sort.Strings(ops)
+	for _, op := range ops {
+		reach := constReachFor(numF, isTag, domain, op)
+		paths, trunc := enumPaths(numF.Blocks[0], walkCfg{Stop: func(b *ssa.BasicBlock) bool { return !reach[b] }, MaxVisits: 1, MaxPaths: 4000})
+		key := "bsi:set:" + op
+		if op == "" {
+			key = "bsi:set:default"
+		}
+		site := w.Pos(numF.Pos()) + " " + name
+		if trunc {
+			r.Und(rule, key, site, "too many paths through the numeric query")
+			continue
+		}
+		nOK := 0
+		var bad []string
+		shown := ""
+		for _, pth := range paths {
+			if pth.End == EndCycle {
+				bad = append(bad, "the numeric query loops: the returned set is not followed")
+				continue
+			}
+			if pth.End != EndReturn || !pth.Feasible() || pathErrClass(pth) != ErrNil {
+				continue
+			}
+			sets := map[ssa.Value]*numSet{}
+			get := func(v ssa.Value) *numSet {
+				v = resolveOnPath(pth, v)
+				if s, ok := sets[v]; ok {
+					return s
+				}
+				return nil
+			}
+			for _, in := range pth.Instrs() {
+				call, isCall := in.(*ssa.Call)
+				if !isCall {
 					continue
 				}
-				rowsT = append(rowsT, rowT{ov, both})
-			}
-		} else {
-			ov, _ := constString(cc.Args[2])
-			rowsT = append(rowsT, rowT{ov, reach[call.Block()]})
-		}
-		for _, row := range rowsT {
-			opv := row.opv
-			opn := opNames[opv]
-			s := valSet{}
-			for op := range row.s {
-				if !newOps[op] {
-					s[op] = true
+				cc := call.Common()
+				n := calleeName(cc)
+				switch {
+				case strings.HasSuffix(n, "BSI).CompareValue") && len(cc.Args) == 6:
+					if c.S(resolveOnPath(pth, cc.Args[0])) != recv {
+						sets[call] = numUnknown("a comparison on something else than the field's BSI (" + w.InstrPos(call) + ")")
+						break
+					}
+					ov, isConst := constString(resolveOnPath(pth, cc.Args[2]))
+					opn := opNames[ov]
+					if !isConst || opn == "" {
+						sets[call] = numUnknown("the BSI operation at " + w.InstrPos(call) + " is not a constant of the library")
+						break
+					}
+					v1, ok1 := operandOf(cc.Args[3], pth)
+					v2, ok2 := operandOf(cc.Args[4], pth)
+					if !ok1 || (opn == "RANGE" && !ok2) {
+						sets[call] = numUnknown("the operand of bsi." + opn + " at " + w.InstrPos(call) + " is neither filter.Value nor filter.Value2 (converted by toInt64)")
+						break
+					}
+					s := prim(opn, v1, v2)
+					if fs := resolveOnPath(pth, cc.Args[5]); !isNilConst(fs) {
+						s = combine("And", s, get(fs))
+					}
+					sets[call] = s
+				case strings.HasSuffix(n, "BSI).GetExistenceBitmap"):
+					if c.S(resolveOnPath(pth, cc.Args[0])) == recv {
+						sets[call] = &numSet{str: "EXISTS", eval: func(m numPoint) tri { return triOf(m.has) }}
+					}
+				case n == roaringBitmap+"Clone":
+					if s := get(cc.Args[0]); s != nil {
+						sets[call] = s
+					}
+				case n == roaringPkg+"New" || n == roaringPkg+"NewBitmap":
+					sets[call] = &numSet{str: "∅", eval: func(numPoint) tri { return triF }}
+				case n == roaringBitmap+"And" || n == roaringBitmap+"AndNot" || n == roaringBitmap+"Or" || n == roaringBitmap+"Xor":
+					t := resolveOnPath(pth, cc.Args[0])
+					sets[t] = combine(strings.TrimPrefix(n, roaringBitmap), get(t), get(cc.Args[1]))
+				case (n == roaringPkg+"And" || n == roaringPkg+"AndNot" || n == roaringPkg+"Or" || n == roaringPkg+"Xor") && len(cc.Args) == 2:
+					sets[call] = combine(strings.TrimPrefix(n, roaringPkg), get(cc.Args[0]), get(cc.Args[1]))
+				case n == roaringBitmap+"IsEmpty" || n == roaringBitmap+"GetCardinality" || n == roaringBitmap+"Contains" || n == roaringBitmap+"String" || n == roaringBitmap+"RunOptimize":
+				default:
+					// a followed set handed to code the rule does not know
+					for _, a := range cc.Args {
+						ra := resolveOnPath(pth, a)
+						if _, tracked := sets[ra]; tracked {
+							sets[ra] = numUnknown("the set is handed to " + n + " at " + w.InstrPos(call))
+						}
+					}
 				}
 			}
-			if len(s) == 0 && len(row.s) > 0 {
-				continue // reached only under operators the property does not know
+			res := get(resultValue(pth.Ret, 0))
+			if res == nil {
+				bad = append(bad, "the bitmap returned at "+w.InstrPos(pth.Ret)+" is not built from BSI comparisons the rule follows: "+short(c.S(resolveOnPath(pth, resultValue(pth.Ret, 0))), 100))
+				continue
 			}
-			var ks []string
-			for op := range s {
-				ks = append(ks, op)
+			if res.bad != "" {
+				bad = append(bad, res.bad)
+				continue
 			}
-			sort.Strings(ks)
-			key := "bsi:" + strings.Join(ks, "|")
-			ok := len(s) > 0
-			for op := range s {
-				seen[op] = true
-				if want[op] != opn {
-					ok = false
+			// decisions of the path that compare the operands restrict the model
+			type constraint func(m numPoint) bool
+			var cons []constraint
+			for _, d := range pth.Decisions {
+				cnd, neg := stripNot(d.Cond)
+				bo, ok := cnd.(*ssa.BinOp)
+				if !ok {
+					continue
+				}
+				l, okL := operandOf(bo.X, pth)
+				rr, okR := operandOf(bo.Y, pth)
+				if !okL || !okR {
+					continue
+				}
+				op2, want := bo.Op, d.Taken != neg
+				cons = append(cons, func(m numPoint) bool {
+					a, b := valOf(l, m), valOf(rr, m)
+					var v bool
+					switch op2 {
+					case token.LSS:
+						v = a < b
+					case token.LEQ:
+						v = a <= b
+					case token.GTR:
+						v = a > b
+					case token.GEQ:
+						v = a >= b
+					case token.EQL:
+						v = a == b
+					case token.NEQ:
+						v = a != b
+					default:
+						return true
+					}
+					return v == want
+				})
+			}
+			cex := ""
+			bs := []int{0}
+			if usesB[op] {
+				bs = []int{-2, -1, 0, 1, 2}
+			}
+		model:
+			for _, has := range []bool{true, false} {
+				for x := -2; x <= 2; x++ {
+					for a := -2; a <= 2; a++ {
+						for _, b := range bs {
+							m := numPoint{has, x, a, b}
+							feasible := true
+							for _, cn := range cons {
+								if !cn(m) {
+									feasible = false
+								}
+							}
+							if !feasible {
+								continue
+							}
+							got, want := res.eval(m), expect[op](m)
+							if got == triU {
+								cex = fmt.Sprintf("for a stored value %d and operand(s) %s the answer rests on a BSI comparison across signs: of the library's operations only LE and GE take the sign of both sides into account, EQ / LT / GT / RANGE compare magnitudes there (eq -5 matches 5, lt 100 misses -100)", x, pointOperands(m, usesB[op]))
+								break model
+							}
+							if (got == triT) != want {
+								cex = fmt.Sprintf("for a document %s and operand(s) %s the set contains it: %v, the operator says %v", pointDoc(m), pointOperands(m, usesB[op]), got == triT, want)
+								break model
+							}
+						}
+					}
 				}
 			}
-			val, end := c.S(cc.Args[3]), c.S(cc.Args[4])
-			argsOK := val == "toInt64(P2.Value)#0" && (end == "c(0)" || (opn == "RANGE" && end == "toInt64(P2.Value2)#0"))
-			if opn == "RANGE" && end != "toInt64(P2.Value2)#0" {
-				argsOK = false
+			if cex != "" {
+				bad = append(bad, "returns "+res.str+" at "+w.InstrPos(pth.Ret)+": "+cex)
+				continue
 			}
-			recvOK := c.S(cc.Args[0]) == "P1"
-			r.Check(ok && argsOK && recvOK, rule, key, site, fmt.Sprintf("operators %v → bsi.%s(value=%s, end=%s) on the field's BSI", ks, opn, val, end),
-				fmt.Sprintf("operators %v are answered with bsi.%s(value=%s, end=%s, bsi=%s)", ks, opn, val, end, c.S(cc.Args[0])))
-		}
-	}
-	var missing []string
-	for op := range want {
-		if !seen[op] {
-			missing = append(missing, op)
-		}
-	}
-	sort.Strings(missing)
-	r.Check(len(missing) == 0, rule, "bsi:all-operators", w.Pos(numF.Pos())+" "+name, "every numeric operator reaches a CompareValue call", "no CompareValue call for "+strings.Join(missing, ","))
-	// ne = existence ∖ EQ
-	for _, ret := range returnsOf(numF) {
-		if reach[ret.Block()].equal(setOf("ne")) && classifyErr(ret) == ErrNil {
-			v := c.S(resultValue(ret, 0))
-			ok := strings.HasPrefix(v, roaringBitmap+"Clone(") && strings.Contains(v, "GetExistenceBitmap(P1)")
-			andnot := false
-			for _, call := range callsIn(numF, func(cc *ssa.CallCommon) bool { return calleeName(cc) == roaringBitmap+"AndNot" }) {
-				if reach[call.Block()].equal(setOf("ne")) && strings.Contains(c.S(call.Common().Args[1]), "CompareValue(") && c.S(call.Common().Args[0]) == v {
-					andnot = true
-				}
+			nOK++
+			if shown == "" {
+				shown = res.str
 			}
-			r.Check(ok && andnot, rule, "bsi:ne:universe", w.InstrPos(ret)+" "+name, "numeric ne = Clone(existence) AndNot EQ", "numeric ne returns "+v+fmt.Sprintf(" (AndNot EQ: %v)", andnot))
+		}
+		switch {
+		case len(bad) > 0:
+			r.Bad(rule, key, site, fmt.Sprintf("operator %q: %s", op, strings.Join(dedup(bad), "; ")))
+		case nOK == 0:
+			missing = append(missing, fmt.Sprintf("%q", op))
+		default:
+			r.Ok(rule, key, site, fmt.Sprintf("operator %q answers %s on %d success path(s): equal to its predicate at every point of the signed model (document with/without the field, stored value and operands over -2..2)", op, shown, nOK))
 		}
 	}
+	r.Check(len(missing) == 0, rule, "bsi:all-operators", w.Pos(numF.Pos())+" "+name, "every numeric operator reaches a success return with a followed set", "no answered success return for "+strings.Join(missing, ","))
+}
+
+func pointDoc(m numPoint) string {
+	if !m.has {
+		return "without the field"
+	}
+	return fmt.Sprintf("with value %d", m.x)
+}
+
+func pointOperands(m numPoint, two bool) string {
+	if two {
+		return fmt.Sprintf("[%d,%d]", m.a, m.b)
+	}
+	return fmt.Sprint(m.a)
 }
 
 func ruleMetaCategoricalTable(r *Run, rule string, catF *ssa.Function, isTag func(ssa.Value) bool, domain []string) {
@@ -1022,7 +1334,7 @@ func ruleMetaBSIWidth(r *Run, rule string) {
 			case !known:
 				r.Und(rule, key, site, "BSI range arguments are not constants")
 			default:
-				r.Check(width == 64, rule, key, site, "the BSI spans all 64 bit planes (two's complement operands are compared in full)", fmt.Sprintf("the BSI has %d bit planes: wider or negative operands are truncated", width))
+				r.Check(width == 64, rule, key, site, "the BSI spans all 64 bit planes: operands are compared in full, and the library's sign handling of LE / GE (active only for 64 planes) applies", fmt.Sprintf("the BSI has %d bit planes: wider or negative operands are truncated", width))
 			}
 		}
 	}
